@@ -73,6 +73,18 @@ def gen_case(rng):
         b_s = dec_str(exact + pert, pl)
     else:
         b_s = dec_str(Fraction(rng.randint(-2000, 200000), 10 ** places), places) if rng.random() < 0.8 else a_s
+    if rng.random() < 0.08:          # a zero on either side, in its various spellings (0 K, 0 degC and 0 degF differ)
+        if rng.random() < 0.6:
+            b_s = rng.choice(["0", "0.0", "-0", "0.00"])
+            if ta and tb and rng.random() < 0.8:
+                # the other value at, around and between the two zero points (they differ for offset units)
+                z_in_a = (tb[1] - ta[1]) / ta[0]
+                a_s = dec_str(rng.choice([z_in_a, z_in_a / 2, z_in_a + 1, z_in_a - 1, Fraction(0), Fraction(-1), Fraction(1)]), rng.choice([2, 3, 6]))
+        else:
+            a_s = rng.choice(["0", "0.0", "-0"])
+            if ta and tb and rng.random() < 0.8:
+                z_in_b = (ta[1] - tb[1]) / tb[0]
+                b_s = dec_str(rng.choice([z_in_b, z_in_b / 2, z_in_b + 1, z_in_b - 1, Fraction(0), Fraction(-1), Fraction(1)]), rng.choice([2, 3, 6]))
     return dict(kind="cmp", ua=ua, ub=ub, a=a_s, b=b_s)
 
 
